@@ -4,16 +4,54 @@ package vtime
 
 import (
 	"time"
+	"unsafe"
 
 	"verif/vsched"
 )
+
+// WallStep: from virtual instant WallStepAtNs on, the WALL clock reads WallStepSec seconds more (or less) than it would
+// have - an NTP step, `date -s`, a resumed VM - while the monotonic clock runs on undisturbed. Set by the harness for
+// one execution (0 = no step). Times read before and after the step still subtract correctly as long as they keep
+// their monotonic reading, which is how package time protects elapsed-time measurements from such steps.
+var WallStepAtNs, WallStepSec int64
+
+// WallStepSupported: the layout assumption behind stepWall holds for this toolchain (checked at start-up).
+var WallStepSupported bool
+
+type timeLayout struct {
+	wall uint64 // hasMonotonic:1 | seconds since 1885:33 | nanoseconds:30   (when the top bit is set)
+	ext  int64
+	loc  *time.Location
+}
+
+//go:norace
+func stepWall(t time.Time, sec int64) time.Time {
+	p := (*timeLayout)(unsafe.Pointer(&t))
+	if p.wall>>63 != 0 {
+		p.wall += uint64(sec) << 30
+	}
+	return t
+}
+
+func init() {
+	if unsafe.Sizeof(time.Time{}) != unsafe.Sizeof(timeLayout{}) {
+		return
+	}
+	t := time.Now()
+	u := stepWall(t, 10)
+	WallStepSupported = u.Sub(t) == 0 && u.Round(0).Sub(t.Round(0)) == 10*time.Second && stepWall(u, -10).Round(0).Equal(t.Round(0))
+}
 
 //go:norace
 func Now() time.Time {
 	if vsched.Active() == nil {
 		return time.Now()
 	}
-	return vsched.Base().Add(time.Duration(vsched.Now()))
+	t := vsched.Base().Add(time.Duration(vsched.Now()))
+	if WallStepSec != 0 && WallStepSupported && vsched.Now() >= WallStepAtNs {
+		t = stepWall(t, WallStepSec)
+	}
+	return t
 }
 
 func Since(t time.Time) time.Duration { return Now().Sub(t) }
